@@ -332,6 +332,9 @@ pub fn catch<T>(f: impl FnOnce() -> T) -> Result<T, String> {
         Ok(v) => Ok(v),
         Err(e) => {
             let msg = if let Some(s) = e.downcast_ref::<&str>() {
+                if *s == crate::envrng::HORIZON_PANIC {
+                    return Err(crate::envrng::HORIZON_PANIC.to_string());
+                }
                 s.to_string()
             } else if let Some(s) = e.downcast_ref::<String>() {
                 s.clone()
